@@ -203,8 +203,72 @@ def r2(ctx):
               "every consumed field is counted (%s)" % what, path=p and g.fmt_path(p))
 
 
+def cap_only_without_delimiter(ctx, rid):
+    """A buffer cap on an accumulate-until-delimiter loop is a statement about data that does NOT yet contain the delimiter
+    (a client that never sends it). Applied to whatever the last read returned it also counts bytes *behind* a delimiter that
+    read just completed -- the start of the body, the next pipelined request -- and rejects a head that is within every limit,
+    but only when the segmentation happens to put those bytes into the same read: the verdict depends on the split, and a
+    request within all limits is refused for size. Evaluated: from the statement after each read of such a loop, with the
+    delimiter present early in a very long buffer (search result 5, buffer length 10**6, every limit 100), no `raise Limit*`
+    is reached before the next read or the end of the loop."""
+    repo = ctx.repo
+    from ..absint import Explorer, UNKNOWN
+    n = 0
+    for q in (MSG + ".Request.parse", MSG + ".Request.read_line", BODY + ".ChunkedReader.parse_trailers", BODY + ".ChunkedReader.parse_chunk_size"):
+        f = ctx.fn(repo.func(q))
+        g = f.cfg
+
+        def atom_of(e):
+            if isinstance(e, ast.Call) and isinstance(e.func, ast.Attribute) and e.func.attr in ("find", "index") and e.args and isinstance(const(e.args[0], NO), bytes):
+                return "IDX"
+            if isinstance(e, ast.Compare) and len(e.ops) == 1 and isinstance(const(e.left, NO), bytes):
+                if isinstance(e.ops[0], ast.In):
+                    return "FOUND"
+                if isinstance(e.ops[0], ast.NotIn):
+                    return "NOTFOUND"
+            if isinstance(e, ast.Call) and isinstance(e.func, ast.Name) and e.func.id == "len" and len(e.args) == 1:
+                return "LEN"
+            if isinstance(e, ast.Call) and isinstance(e.func, ast.Attribute) and e.func.attr == "tell" and not e.args:
+                return "LEN"
+            if (isinstance(e, ast.Attribute) and ("limit" in e.attr or e.attr.startswith("max_"))) or (isinstance(e, ast.Name) and e.id in f.params and "limit" in e.id):
+                return "LIMIT"
+            return None
+        for w in [x for x in walk_own(f.node) if isinstance(x, ast.While)]:
+            reads = [nd for st in w.body for c in ast.walk(st) if is_read_call(repo, f, c) for nd in nodes_with(f, c)]
+            if not reads:
+                continue
+            caps = []
+            for nd in g.nodes:
+                if nd.kind == "stmt" and isinstance(nd.ast, ast.Raise) and nd.ast.exc is not None and any(a is w for a in f.module.ancestors(nd.ast)):
+                    e_ = nd.ast.exc.func if isinstance(nd.ast.exc, ast.Call) else nd.ast.exc
+                    cq = repo.resolve(f.module, f, e_) or norm(e_)
+                    if cq.rsplit(".", 1)[-1].startswith("Limit"):
+                        caps.append(nd)
+            if not caps:
+                continue
+            n += len(caps)
+            inloop = set(x.id for x in g.nodes if x.ast is not None and (x.ast is w or x.stmt is w or any(a is w for a in f.module.ancestors(x.ast))))
+            for r in reads:
+                for b, l in r.out:
+                    if l == "exc":
+                        continue
+                    ex = Explorer(f, atom_of=atom_of)
+                    outs = ex.run(b, {"IDX": 5, "FOUND": True, "NOTFOUND": False, "LEN": 10 ** 6, "LIMIT": 100}, watch={c.id: "cap" for c in caps},
+                                  stop=lambda x, r=r: x in reads or x.id not in inloop)
+                    fired = [o for o in outs if "cap" in o.events]
+                    hit = None
+                    if fired:
+                        hit = next((x for x in fired[0].path if x in caps), caps[0])
+                    ctx.check(rid, not fired, key(f, "cap-only-without-delimiter|" + (hit.text[:40] if hit else "")), site(f, hit or r),
+                              "after a read that completed the delimiter (it now sits early in a long buffer) `%s` is still reached: the cap counts bytes that follow the delimiter (the body, a "
+                              "pipelined request) against the head's limit, so a request within all limits is rejected when -- and only when -- it arrives split that way" % (hit.text if hit else ""),
+                              "no Limit* rejection once the delimiter is in the buffer", path=fired and g.fmt_path(list(fired[0].path)))
+    ctx.floor(rid, "cap rejections in accumulate-until-delimiter loops", n, 1)
+
+
 def r3(ctx):
     repo = ctx.repo
+    cap_only_without_delimiter(ctx, "C12.R3")
     n = 0
     scope = [MSG + ".Request.parse", MSG + ".Request.read_line", BODY + ".ChunkedReader.parse_trailers", BODY + ".ChunkedReader.parse_chunk_size"]
     for q in scope:
